@@ -106,6 +106,8 @@ func showVal(v oval) string {
 		return "⊤(" + x.why + ")"
 	case oSlice:
 		return showSlice(x)
+	case oHost:
+		return "<" + x.kind + " " + x.key + ">"
 	}
 	return fmt.Sprint(v)
 }
@@ -189,6 +191,9 @@ func (it *oInterp) zero(t types.Type) oval {
 		if u.Info()&types.IsBoolean != 0 {
 			return oBool(false)
 		}
+		if u.Info()&types.IsString != 0 {
+			return oSlice{typ: t}
+		}
 	case *types.Struct:
 		s := &oStruct{typ: t, fields: map[string]oval{}}
 		for i := 0; i < u.NumFields(); i++ {
@@ -209,6 +214,8 @@ func (it *oInterp) zero(t types.Type) oval {
 		}
 	case *types.Signature:
 		return oNil{}
+	case *types.Map:
+		return oMap{typ: t}
 	}
 	return oTop{"zero of " + t.String()}
 }
@@ -414,7 +421,11 @@ func (fr *oFrame) stmt(s ast.Stmt) oCtl {
 					continue
 				}
 				if i < len(vs.Values) {
-					fr.env.define(o, fr.eval(vs.Values[i]))
+					v := retag(fr.eval(vs.Values[i]), o.Type())
+					if _, isIface := o.Type().Underlying().(*types.Interface); isIface && len(vs.Values) == len(vs.Names) {
+						v = fr.toIface(v)
+					}
+					fr.env.define(o, v)
 				} else {
 					fr.env.define(o, fr.it.zero(o.Type()))
 				}
@@ -788,6 +799,17 @@ func oEqual(a, b oval) (eq bool, ok bool) {
 		if _, ok := b.(oNil); ok {
 			return false, true
 		}
+	case oMap:
+		if _, ok := b.(oNil); ok {
+			return x.keys == nil, true
+		}
+	case oHost:
+		switch y := b.(type) {
+		case oHost:
+			return x.kind == y.kind && x.key == y.key, true
+		case oNil:
+			return false, true
+		}
 	case oFuncRef:
 		if _, ok := b.(oNil); ok {
 			return false, true
@@ -820,8 +842,10 @@ func oEqual(a, b oval) (eq bool, ok bool) {
 		switch y := b.(type) {
 		case oSlice:
 			return y.isNil(), true
-		case oHostFunc, oFunc, oFuncRef:
+		case oHostFunc, oFunc, oFuncRef, oHost:
 			return false, true
+		case oMap:
+			return y.keys == nil, true
 		case oPtr:
 			return y.s == nil, true
 		case oNil:
@@ -1093,11 +1117,25 @@ func (fr *oFrame) eval(e ast.Expr) oval {
 			}
 			return oTop{"comparison of " + showVal(l) + " and " + showVal(r)}
 		default:
-			if li, ok := fr.eval(x.X).(oInt); ok {
+			lv := fr.eval(x.X)
+			if li, ok := lv.(oInt); ok {
 				if ri, ok := fr.eval(x.Y).(oInt); ok {
 					if v, ok := intBinop(x.Op, li, ri); ok {
 						return v
 					}
+				}
+			}
+			// string concatenation
+			if ls, ok := lv.(oSlice); ok && x.Op == token.ADD && isStringT(fr.info.TypeOf(x)) {
+				if rs, ok := fr.eval(x.Y).(oSlice); ok {
+					arr := make([]oval, 0, ls.length()+rs.length())
+					for i := 0; i < ls.length(); i++ {
+						arr = append(arr, ls.at(i))
+					}
+					for i := 0; i < rs.length(); i++ {
+						arr = append(arr, rs.at(i))
+					}
+					return oSlice{typ: fr.info.TypeOf(x), arr: &arr, lo: 0, hi: len(arr), capEnd: len(arr)}
 				}
 			}
 			return oTop{"arithmetic " + x.Op.String()}
@@ -1187,6 +1225,9 @@ func (fr *oFrame) call(call *ast.CallExpr) []oval {
 		if _, isNil := v.(oNil); isNil {
 			if _, isSl := tv.Type.Underlying().(*types.Slice); isSl {
 				return one(oSlice{typ: tv.Type})
+			}
+			if _, isPtr := tv.Type.Underlying().(*types.Pointer); isPtr {
+				return one(oPtr{nil})
 			}
 		}
 		return one(v)
@@ -1344,6 +1385,15 @@ func (fr *oFrame) call(call *ast.CallExpr) []oval {
 		}
 		_, ptrRecv := sig.Recv().Type().(*types.Pointer)
 		xv := fr.eval(sel.X)
+		hostRecv := false
+		if iv, ok := xv.(oIface); ok {
+			if h, isHost := iv.dyn.(oHost); isHost && iv.opaque == nil {
+				xv, hostRecv = h, true
+			}
+		}
+		if _, isHost := xv.(oHost); isHost {
+			hostRecv = true
+		}
 		// interface method call
 		if iv, ok := xv.(oIface); ok {
 			if iv.opaque != nil {
@@ -1381,7 +1431,9 @@ func (fr *oFrame) call(call *ast.CallExpr) []oval {
 				return one(oTop{"method on nil interface"})
 			}
 		}
-		if ptrRecv {
+		if hostRecv {
+			recv = xv
+		} else if ptrRecv {
 			if p, ok := xv.(oPtr); ok {
 				recv = p
 			} else if s := fr.structRef(sel.X); s != nil {
@@ -1419,6 +1471,7 @@ func (fr *oFrame) call(call *ast.CallExpr) []oval {
 			if sig.Variadic() && pi == ps.Len()-1 && !call.Ellipsis.IsValid() {
 				pt = pt.(*types.Slice).Elem()
 			}
+			v = retag(v, pt)
 			if _, isIface := pt.Underlying().(*types.Interface); isIface {
 				v = fr.toIface(v)
 				if iv, ok := v.(oIface); ok && iv.styp == nil {
@@ -1902,4 +1955,21 @@ type oExt struct{ name string }
 type oRef struct {
 	cell *oval
 	typ  types.Type
+}
+
+// retag gives a slice value the named type of the variable, parameter or result it is assigned
+// to (an implicit conversion between a named slice type and its underlying type).
+func retag(v oval, t types.Type) oval {
+	sl, ok := v.(oSlice)
+	if !ok || t == nil || sl.typ == nil || types.Identical(sl.typ, t) {
+		return v
+	}
+	if _, isIface := t.Underlying().(*types.Interface); isIface {
+		return v
+	}
+	if types.Identical(sl.typ.Underlying(), t.Underlying()) {
+		sl.typ = t
+		return sl
+	}
+	return v
 }
